@@ -22,6 +22,10 @@
  * the same reference.  Reference = hashlib table generated at check time (expected.h); Streebog =
  * ref_streebog.c.
  *
+ * Long messages (every level): 16 blocks and 33 blocks+7 of an LFSR pattern, absorbed in one update at
+ * alignments {0,1,16,31} and as 7|rest and B+1|rest, must give the reference digest (bulk loop over
+ * many blocks; by the confluence argument nothing else can differ, this is the cheap cross-check).
+ *
  * Length-encoding carries (every level): the byte counter of a freshly initialised context is preset to
  * P = 2^29-B, 2^32-B (bit length / byte count crossing 2^32) and, where the length field is 128 bits
  * wide (SHA-384/512) 2^61-B, 2^64-B (carry into the high word / into count_hi); Streebog additionally
@@ -335,6 +339,53 @@ static const struct { const int *n; const uint64_t (*p)[2]; const uint8_t *e; } 
 	{ &npreset_gost, preset_gost, NULL },
 };
 
+static const uint8_t *const expl_base[HALG_COUNT] = {
+	(const uint8_t *)expl_md5, (const uint8_t *)expl_sha1, (const uint8_t *)expl_sha2_224,
+	(const uint8_t *)expl_sha2_256, (const uint8_t *)expl_sha2_384, (const uint8_t *)expl_sha2_512,
+	NULL, NULL
+};
+
+/* one long message: bulk path over many blocks */
+static int
+case_long(int ai, int v, int li) {
+	static const int la[4] = { 0, 1, 16, 31 };
+	const halg_t *A = &halgs[ai];
+	size_t len = (0 == li) ? (16 * A->B) : (33 * A->B + 7), first;
+	uint8_t want[64], *W, *dg;
+	char hex[2 * 64 + 8];
+	int k, bad = 0;
+
+	if (A->gost_bits)
+		ref_streebog(A->gost_bits, ref_long, len, want);
+	else
+		memcpy(want, expl_base[ai] + (size_t)li * A->hs, A->hs);
+	for (k = 0; k < 6; k ++) {
+		void *base;
+		const uint8_t *src = h_src(ref_long, len, la[k & 3], &base);
+
+		W = (uint8_t *)h_ctx_alloc(A->ctx_size);
+		A->init(W);
+		A->force(W, A->vname[v]);
+		first = (k < 4) ? len : ((4 == k) ? 7 : (A->B + 1));
+		A->update(W, src, first);
+		A->update(W, src + first, len - first);
+		h_transitions += 2;
+		dg = (uint8_t *)malloc(A->hs);
+		memset(dg, 0xCC, A->hs);
+		A->final(W, dg);
+		h_transitions ++;
+		if (0 != memcmp(dg, want, A->hs)) {
+			vh_hex(hex, sizeof(hex), dg, A->hs);
+			vh_fail("digest", "len=%zu a=%d updates %zu|%zu: got %s", len, la[k & 3], first, len - first, hex);
+			bad = 1;
+		}
+		free(dg);
+		free(W);
+		free(base);
+	}
+	return (bad);
+}
+
 /* Byte counter preset to P (buffer empty, chaining value = IV), then m more bytes and final. */
 static int
 case_preset(int ai, int v, int j) {
@@ -455,11 +506,21 @@ main(int argc, char **argv) {
 			h_flush_model(0 == vh_shard && NULL == vh_only_target);
 		}
 
-		/* length-encoding carries from preset byte counters */
+		/* long messages; length-encoding carries from preset byte counters */
 		for (v = 0; v < A->nvar; v ++) {
 			const char *t_preset = h_name(A->pfx, "_final", A->sfx, A->vname[v]);
-			char *t = (char *)malloc(128);
+			char *t = (char *)malloc(128), *tl = (char *)malloc(128);
 
+			snprintf(tl, 128, "%s/long", h_name(A->pfx, "_update", A->sfx, A->vname[v]));
+			for (j = 0; j < 2; j ++) {
+				if (!vh_begin(tl))
+					continue;
+				vh_desc("long message %d: %zu bytes", j, (0 == j) ? (16 * A->B) : (33 * A->B + 7));
+				vh_publish_desc();
+				H_GUARDED(bad, case_long(ai, v, j));
+				if (!bad)
+					vh_nontrivial();
+			}
 			snprintf(t, 128, "%s/preset-count", t_preset);
 			for (j = 0; j < (*preset_tab[ai].n); j ++) {
 				if (!vh_begin(t))
